@@ -277,4 +277,39 @@ pub(crate) mod verif_proofs {
     k_valid_state_parts!(k_valid_state_a_with_b, 2, 1, 1);
     k_valid_state_parts!(k_valid_state_b_with_a, 1, 2, 1);
     k_valid_state_parts!(k_valid_state_action, 1, 1, 2);
+
+    /// [C06.stored] the transition list a state is built from is the list it samples from: State::new stores, for
+    /// every event, exactly the declared (target, probability) pairs in the declared order - nothing dropped,
+    /// reordered or altered - and nothing for an event with an empty list.  BOUNDED: the first or the last event with no or two pairs
+    /// (any target, any probability bit pattern), the other events empty.
+    #[kani::proof]
+    #[kani::unwind(15)]
+    pub(crate) fn k_state_new() {
+        let evs = all_events();
+        // (a fully symbolic event index multiplies CBMC's work by 13; the first and the last event stand for all)
+        let ei: usize = if kani::any() { 0 } else { EVENT_NUM - 1 };
+        let n: usize = if kani::any() { 2 } else { 0 };
+        let t0 = Trans(kani::any(), f32::from_bits(kani::any()));
+        let t1 = Trans(kani::any(), f32::from_bits(kani::any()));
+        let mut m: EnumMap<Event, Vec<Trans>> = enum_map! { _ => vec![] };
+        if n >= 1 { m[evs[ei]].push(t0); }
+        if n >= 2 { m[evs[ei]].push(t1); }
+        let s = State::new(m);
+        let mut e = 0;
+        while e < EVENT_NUM {
+            if e == ei && n > 0 {
+                let Some(l) = &s.transitions[e] else { panic!("[C06.stored] a declared list is stored") };
+                assert!(l.len() == n, "[C06.stored] no transition is dropped or added");
+                assert!(l[0].0 == t0.0 && l[0].1.to_bits() == t0.1.to_bits(), "[C06.stored]");
+                if n == 2 {
+                    assert!(l[1].0 == t1.0 && l[1].1.to_bits() == t1.1.to_bits(), "[C06.stored] order and values kept");
+                }
+            } else {
+                assert!(s.transitions[e].is_none(), "[C06.stored] no transitions where none are declared");
+            }
+            e += 1;
+        }
+        assert!(s.action.is_none() && s.counter.0.is_none() && s.counter.1.is_none(), "[C06.stored]");
+        std::mem::forget(s);
+    }
 }
